@@ -163,11 +163,12 @@ func runC02Facts(k *gctx) {
 			k.passChecked("F-a.drop", name+"[op == IDEq]", "a plain assignment x = e drops every fact mentioning x before any new fact about x is added (and before leaving the branch)", fl,
 				core.Query{Region: core.RegionOf(eqIf.Body), FallOut: true, Exit: func(n ast.Node) bool { return addsFact(n) || fl.SuccessReturn(n) }},
 				factsMethod(fl, "dropAnyFactsMentioning", fl.Is(lhs)))
-			// F-b: compound assignment: facts.update(closure) on every path of the else branch.
-			els, _ := eqIf.Else.(*ast.BlockStmt)
-			if els == nil {
+			// F-b: compound assignment: on every path of the else part, either
+			// facts.update(closure) or facts.dropAnyFactsMentioning(lhs).
+			if eqIf.Else == nil {
 				c.Undecided("F-b", name+"[compound op]", "the compound-assignment branch exists", "no else branch")
 			} else {
+				els := eqIf.Else
 				var lit *ast.FuncLit
 				isUpd := func(call *ast.CallExpr) bool {
 					if !factsMethod(fl, "update")(call) || len(call.Args) != 1 {
@@ -179,8 +180,44 @@ func runC02Facts(k *gctx) {
 					}
 					return ok
 				}
-				k.passChecked("F-b.update", name+"[compound op]", "a compound assignment x op= e rewrites or drops every fact mentioning x (facts.update)", fl,
-					core.Query{Region: core.RegionOf(els), FallOut: true, Exit: fl.SuccessReturn}, isUpd)
+				isDrop := factsMethod(fl, "dropAnyFactsMentioning", fl.Is(lhs))
+				k.passChecked("F-b.update", name+"[compound op]", "a compound assignment x op= e rewrites or drops every fact mentioning x (facts.update, or dropAnyFactsMentioning(x))", fl,
+					core.Query{Region: core.RegionOf(els), FallOut: true, Exit: fl.SuccessReturn},
+					func(call *ast.CallExpr) bool { return isUpd(call) || isDrop(call) })
+				// rhsMentionsLHS: cond is rhs.Mentions(lhs), possibly negated.
+				rhsMentionsLHS := func(cond ast.Expr) (bool, bool) {
+					e, neg := boolCond(cond)
+					call, ok := e.(*ast.CallExpr)
+					if !ok || !nameIs(fl, call, "Mentions") || len(call.Args) != 1 || !fl.Is(lhs)(call.Args[0]) {
+						return false, false
+					}
+					r := core.RecvOf(call)
+					return r != nil && fl.Is(rhs)(r), neg
+				}
+				selfEdge := core.Event{Edge: func(cond ast.Expr, ci *core.CondInfo, taken bool) bool {
+					m, neg := rhsMentionsLHS(cond)
+					return m && taken == neg // continue only when rhs.Mentions(lhs) is false
+				}}
+				// F-b.self: the rewriting closure is reached only when rhs does not
+				// mention lhs (x -= x would mix the old and the new x in one fact).
+				k.mustPass("F-b.self", name+"[compound op]", "facts are rewritten in terms of the right-hand side of x op= e only when e does not mention x (otherwise the rewritten fact mixes the old and the new x)", fl,
+					core.Query{Region: core.RegionOf(els), Exit: func(n ast.Node) bool { return core.Guaranteed(n, isUpd) }, Events: []core.Event{selfEdge}})
+				// F-a.self: in the plain-assignment branch a fact built from rhs
+				// itself is minted only when rhs does not mention lhs.
+				k.mustPass("F-a.self", name+"[op == IDEq]", "after x = e a fact relating x to e itself is remembered only when e does not mention x (x == x + 1 is false for every x)", fl,
+					core.Query{Region: core.RegionOf(eqIf.Body), Exit: func(n ast.Node) bool {
+						return core.Guaranteed(n, func(call *ast.CallExpr) bool {
+							if !(factsMethod(fl, "appendBinaryOpFact")(call) || factsMethod(fl, "appendFact")(call)) {
+								return false
+							}
+							for _, a := range call.Args {
+								if core.Mentions(fl.F.Info(), a, rhs) {
+									return true
+								}
+							}
+							return false
+						})
+					}, Events: []core.Event{selfEdge}})
 				if lit != nil {
 					ll := core.NewFlowLit(fl.F, lit)
 					x := ll.Param(0)
